@@ -23,5 +23,6 @@ func init() {
 		rules.QueryPathWrites(p, r, "C06-pure")
 		rules.LoopCarriedDefaults(p, r, "C06-loop")
 		rules.SelectorsFullMatchTable(p, r, "C06-f")
+		rules.PeersListOrder(p, r, "C06-order")
 	})
 }
